@@ -47,10 +47,15 @@ def gen_graph(rng, n):
     return nodes
 
 
-def deep_chain(n, known, ss, seed):
-    """n directories nested in one another, a content at the bottom (depths beyond the recursion limit)"""
+def deep_chain(n, known, ss, seed, pick=None):
+    """n directories nested in one another, a content at the bottom (depths beyond the recursion limit);
+    `pick`: the sampler returns the lowest ("min") or highest ("max") directories of the chain, so that one
+    answer of the archive decides the whole chain in a single marking"""
     nodes = [["c", 0, []]] + [["d", i, [i - 1]] for i in range(1, n)]
-    return {"nodes": nodes, "known": known, "order": list(range(n)), "sample_size": ss, "sched_seed": seed}
+    case = {"nodes": nodes, "known": known, "order": list(range(n)), "sample_size": ss, "sched_seed": seed}
+    if pick:
+        case["pick"] = pick
+    return case
 
 
 def generate(ctx):
@@ -60,6 +65,15 @@ def generate(ctx):
     cases.append(deep_chain(n_deep, [], 1000, 4))          # nothing known: "unknown" climbs from wherever sampling starts
     cases.append(deep_chain(n_deep, list(range(n_deep)), 1000, 8))  # everything known: "known" descends from the top
     cases.append(deep_chain(n_deep, list(range(n_deep // 2)), 3, 12))
+    # sample sizes above the library's default (1000), with fewer directories than the sample size:
+    # 1 250 directories each holding its own content, under one root
+    wide = [["c", i, []] for i in range(1250)] + [["d", 1250 + i, [i]] for i in range(1250)] + [["d", 2500, list(range(1250, 2500))]]
+    for ss, known, seed in ((3000, [], 5), (5000, list(range(0, 2500, 2)) + list(range(1250, 1250 + 1250, 2)), 6), (1100, [], 7)):
+        kn = set(known)
+        kn |= {i - 1250 for i in kn if 1250 <= i < 2500}   # closed: a known directory's content is known
+        cases.append({"nodes": wide, "known": sorted(kn), "order": list(range(2501)), "sample_size": ss, "sched_seed": seed})
+    cases.append(deep_chain(n_deep, [], 1, 4, "min"))                    # one climb through 1 298 ancestors
+    cases.append(deep_chain(n_deep, list(range(n_deep)), 1, 8, "max"))   # one descent through 1 299 descendants
     for _ in range(ctx.budget(250, 4000)):
         n = rng.choice([0, 1, 2, 3, 5, 8, 12, 20, 30, 40])
         nodes = gen_graph(rng, n)
@@ -167,7 +181,11 @@ def check_cases(ctx, cases):
                 # any k distinct elements are a legal outcome: also always the first / last / smallest k
                 mode = case["sched_seed"] % 4
                 lst = list(pop)
-                if mode == 1:
+                if k > len(lst) or k < 0:
+                    raise ValueError("Sample larger than population or is negative")
+                if case.get("pick"):
+                    r = sorted(lst, key=nid, reverse=case["pick"] == "max")[:k]
+                elif mode == 1:
                     r = lst[:k]
                 elif mode == 2:
                     r = lst[-k:] if k else []
